@@ -435,6 +435,28 @@ pub fn int_subjects(tier: Tier, out: &mut Vec<Subj>) {
             out.push(Subj { decl: d, tag: format!("int/{}/const_fn={cf}/novalidation", t.name()), serde_full: false });
         }
     }
+    // a PARTIAL predicate (panics at 0) guarded by an earlier rule that excludes 0: evaluation order and
+    // early return are observable as "no panic" (C01) and as the variant reported (C07)
+    for (i, t) in [IntTy::U8, IntTy::I16, IntTy::I8, IntTy::U32].into_iter().enumerate() {
+        if tier == Tier::Quick && i >= 2 {
+            break;
+        }
+        let guards: Vec<Vec<Vd>> = if t.signed() {
+            vec![vec![Vd::Greater(Bound::lit(t.val(0).unwrap()))], vec![Vd::Less(Bound::lit(t.val(0).unwrap()))], vec![Vd::GreaterOrEqual(Bound::lit(t.val(1).unwrap())), Vd::LessOrEqual(Bound::lit(t.val(100).unwrap()))]]
+        } else {
+            vec![vec![Vd::Greater(Bound::lit(t.val(0).unwrap()))], vec![Vd::GreaterOrEqual(Bound::lit(t.val(1).unwrap())), Vd::Less(Bound::lit(t.val(100).unwrap()))]]
+        };
+        for (gi, g) in guards.into_iter().enumerate() {
+            let mut vs = g;
+            vs.push(Vd::Predicate(UFn::InvSmall, [Spell::Path, Spell::Closure, Spell::ClosureTyped][gi % 3]));
+            let mut d = Decl::new("X", Inner::Int(t));
+            d.sans = if gi == 1 { vec![San::With(UFn::ToEven, Spell::Path)] } else { vec![] };
+            d.validation = Validation::Std(vs);
+            d.default = if gi == 0 { Some(t.val(0).unwrap()) } else { None };
+            d.derives = max_derives(&d, false);
+            out.push(Subj { decl: d, tag: format!("int/{}/partial-predicate", t.name()), serde_full: gi == 0 });
+        }
+    }
     // Arbitrary-focused: narrow ranges, extremes, expression forms (C09 / C14)
     arbitrary_int_subjects(tier, out);
 }
@@ -795,6 +817,51 @@ pub fn string_subjects(tier: Tier, out: &mut Vec<Subj>) {
             out.push(Subj { decl: d, tag: "string/or_anon".into(), serde_full: false });
         }
     }
+    // large length bounds: a character counter narrowed to u8/u16 (or a byte/char confusion) wraps here
+    for (k, (mn, mx)) in [(None, Some(255u128)), (None, Some(256)), (Some(256u128), Some(257)), (Some(255), None), (Some(65535), Some(65536)), (Some(65536), None)].into_iter().enumerate() {
+        if tier == Tier::Quick && k >= 4 {
+            // the 64Ki bounds are thorough-only (long inputs)
+            continue;
+        }
+        let mut vs = vec![];
+        if let Some(m) = mn {
+            vs.push(Vd::LenCharMin(Bound::lit(Val::U(m))));
+        }
+        if let Some(m) = mx {
+            vs.push(Vd::LenCharMax(Bound::lit(Val::U(m))));
+        }
+        let mut d = Decl::new("X", Inner::Str);
+        d.sans = if k % 2 == 0 { vec![San::Trim] } else { vec![] };
+        d.validation = Validation::Std(vs);
+        d.derives = max_derives(&d, false);
+        d.derives.retain(|t| !matches!(t, Tr::Arbitrary));
+        out.push(Subj { decl: d, tag: "string/large-len-bound".into(), serde_full: false });
+    }
+    // a PARTIAL predicate (panics on "") guarded by an earlier rule that excludes the empty string
+    {
+        let guards: Vec<Vec<Vd>> = vec![
+            vec![Vd::NotEmpty],
+            vec![Vd::LenCharMin(Bound::lit(Val::U(1)))],
+            vec![Vd::LenCharMax(Bound::lit(Val::U(3))), Vd::NotEmpty],
+            vec![Vd::LenCharMin(Bound::lit(Val::U(2))), Vd::Regex(Re::Lower, ReSpell::Lit)],
+        ];
+        let sls: Vec<Vec<San>> = vec![vec![], vec![San::Trim], vec![San::With(UFn::StripX, Spell::Path), San::Trim], vec![San::Trim, San::Lower]];
+        for (gi, g) in guards.iter().enumerate() {
+            for (si, sl) in sls.iter().enumerate() {
+                if tier == Tier::Quick && (gi + si) % 2 == 1 {
+                    continue;
+                }
+                let mut vs = g.clone();
+                vs.push(Vd::Predicate(UFn::FirstNotX, [Spell::Path, Spell::Closure, Spell::ClosureTyped][(gi + si) % 3]));
+                let mut d = Decl::new("X", Inner::Str);
+                d.sans = sl.clone();
+                d.validation = Validation::Std(vs);
+                d.default = if si == 1 { Some(Val::s("  ")) } else { None };
+                d.derives = max_derives(&d, false);
+                out.push(Subj { decl: d, tag: "string/partial-predicate".into(), serde_full: gi == 0 && si == 0 });
+            }
+        }
+    }
     // custom validation
     for (i, sl) in [vec![], vec![San::Trim], vec![San::With(UFn::StripX, Spell::Closure)], vec![San::With(UFn::Dup, Spell::Path), San::Trim], vec![San::With(UFn::Truncate3, Spell::ClosureTyped)]].iter().enumerate() {
         let mut d = Decl::new("X", Inner::Str);
@@ -910,6 +977,65 @@ pub fn any_subjects(_tier: Tier, out: &mut Vec<Subj>) {
     }
 }
 
+/// custom functions spelled as a bare identifier (`use ulib::f; .. with = f`): the shortest token
+/// stream a custom-function position can hold
+pub fn bare_spelling_subjects(_tier: Tier, out: &mut Vec<Subj>) {
+    let b = Spell::Bare;
+    let u8v = |x: i128| Bound::lit(IntTy::U8.val(x).unwrap());
+    let shapes: Vec<(Inner, Vec<San>, Validation)> = vec![
+        (Inner::Int(IntTy::U8), vec![San::With(UFn::Clamp10_100, b)], Validation::Std(vec![Vd::Predicate(UFn::IsEven, b), Vd::LessOrEqual(u8v(90))])),
+        (Inner::Int(IntTy::I64), vec![San::With(UFn::ToEven, b)], Validation::Custom(UFn::CheckInt, b)),
+        (Inner::Int(IntTy::I32), vec![San::With(UFn::WrapAdd1, b)], Validation::None),
+        (Inner::F64, vec![San::With(UFn::AbsF, b)], Validation::Std(vec![Vd::Finite, Vd::Predicate(UFn::IsIntegral, b)])),
+        (Inner::F32, vec![San::With(UFn::NanToZero, b)], Validation::Custom(UFn::CheckFloat, b)),
+        (Inner::Str, vec![San::Trim, San::With(UFn::StripX, b)], Validation::Std(vec![Vd::NotEmpty, Vd::Predicate(UFn::HasA, b)])),
+        (Inner::Str, vec![San::With(UFn::Truncate3, b), San::Lower], Validation::Custom(UFn::CheckStr, b)),
+        (Inner::VecI64, vec![San::With(UFn::SortDedup, b)], Validation::Std(vec![Vd::Predicate(UFn::VecShort, b)])),
+        (Inner::Point, vec![San::With(UFn::PointAbsY, b)], Validation::Std(vec![Vd::Predicate(UFn::PointOnDiag, b)])),
+        (Inner::GenVec, vec![San::With(UFn::SortDedup, b)], Validation::Custom(UFn::CheckVec, b)),
+    ];
+    for (i, (inner, sans, val)) in shapes.into_iter().enumerate() {
+        let mut d = Decl::new("X", inner);
+        d.sans = sans;
+        d.validation = val;
+        d.derives = max_derives(&d, i % 2 == 0);
+        if inner == Inner::GenVec {
+            d.derives.retain(|t| !matches!(t, Tr::Arbitrary));
+        }
+        out.push(Subj { decl: d, tag: "bare-spelling".into(), serde_full: false });
+    }
+}
+
+/// defaults written as compound arithmetic over unsuffixed literals: their value depends on the type the
+/// literals are inferred at (the inner type, as in `try_new(<expr>)`), so wrapping or casting the expression
+/// changes it (`(1.0 - 0.9) as f32` is computed in f64 and rounded afterwards)
+pub fn default_expr_subjects(_tier: Tier, out: &mut Vec<Subj>) {
+    let f32v = |x: f32| Val::f32(x);
+    let a = 1.0f32 - 0.9f32;
+    let b = 16777216.0f32 + 1.0f32 + 1.0f32;
+    let c = 0.1f64 + 0.2f64;
+    let shapes: Vec<(Inner, &str, Val, Validation)> = vec![
+        (Inner::F32, "1.0 - 0.9", f32v(a), Validation::None),
+        (Inner::F32, "1.0 - 0.9", f32v(a), Validation::Std(vec![Vd::Greater(Bound::lit(Val::f32(0.1)))])),
+        (Inner::F32, "1.0 - 0.9", f32v(a), Validation::Std(vec![Vd::LessOrEqual(Bound::lit(Val::f32(0.1)))])),
+        (Inner::F32, "16777216.0 + 1.0 + 1.0", f32v(b), Validation::Std(vec![Vd::Finite, Vd::Less(Bound::lit(Val::f32(16777217.5)))])),
+        (Inner::F64, "0.1 + 0.2", Val::f64(c), Validation::Std(vec![Vd::Greater(Bound::lit(Val::f64(0.3)))])),
+        (Inner::F64, "1.0 - 0.9", Val::f64(1.0f64 - 0.9f64), Validation::None),
+        (Inner::Int(IntTy::U8), "100 + 50 * 3 + 5", Val::U(255), Validation::Std(vec![Vd::GreaterOrEqual(Bound::lit(Val::U(255)))])),
+        (Inner::Int(IntTy::I8), "-(100 + 27)", Val::I(-127), Validation::Std(vec![Vd::Less(Bound::lit(Val::I(-126)))])),
+        (Inner::Int(IntTy::I64), "1 << 40 | 1", Val::I((1i128 << 40) | 1), Validation::None),
+    ];
+    for (i, (inner, src, v, val)) in shapes.into_iter().enumerate() {
+        let mut d = Decl::new("X", inner);
+        d.validation = val;
+        d.default = Some(v);
+        d.default_src = Some(src.to_string());
+        d.derives = max_derives(&d, false);
+        d.derives.retain(|t| !matches!(t, Tr::Arbitrary));
+        out.push(Subj { decl: d, tag: "default-expression".into(), serde_full: i == 0 });
+    }
+}
+
 /// The runtime-explorer subject list. Subject `i` is named `Nt{i}`.
 pub fn rt_subjects(tier: Tier) -> Vec<Subj> {
     let mut out = vec![];
@@ -917,6 +1043,8 @@ pub fn rt_subjects(tier: Tier) -> Vec<Subj> {
     float_subjects(tier, &mut out);
     string_subjects(tier, &mut out);
     any_subjects(tier, &mut out);
+    bare_spelling_subjects(tier, &mut out);
+    default_expr_subjects(tier, &mut out);
     for (i, s) in out.iter_mut().enumerate() {
         s.decl.name = name_for(i);
         // serde glue dominates compile time: keep it on every third subject (and all serde_full ones)
